@@ -25,7 +25,7 @@ def parse_doc(doc: Any):
     from dznpy.json_ast import DznJsonAst  # pylint: disable=import-outside-toplevel
     text = doc if isinstance(doc, (str, bytes)) else json.dumps(doc)
     with common.quiet():
-        return DznJsonAst(text).process()
+        return DznJsonAst(text, verbose=common.verbose_for(text)).process()
 
 
 def ids_of(dotted: str) -> list:
@@ -54,7 +54,16 @@ def make_select(sel, order_seed: Optional[int] = None, pool: Optional[dict] = No
     return PortSelect(out)
 
 
+STATS: Dict[str, int] = {}      # how configurations were constructed (per process)
+
+
 def make_ports_cfg(enc: dict, order_seed: Optional[int] = None, pool: Optional[dict] = None):
+    """The PortsCfg of an encoding.  Where the encoding has the shape of one of the library's
+    preset helpers (all_mts, all_sts, all_sts_all_mts, all_mts_all_sts, all_mts_mixed_ts,
+    all_sts_mixed_ts) two of three constructions go through that helper - they are part of the
+    configuration language."""
+    import zlib  # pylint: disable=import-outside-toplevel
+    from dznpy import adv_shell  # pylint: disable=import-outside-toplevel
     from dznpy.adv_shell import PortsCfg, PortsSemanticsCfg, MultiClientPortCfg  # pylint: disable=import-outside-toplevel
     from dznpy.scoping import NamespaceIds  # pylint: disable=import-outside-toplevel
     mcc = None
@@ -63,6 +72,31 @@ def make_ports_cfg(enc: dict, order_seed: Optional[int] = None, pool: Optional[d
         mcc = MultiClientPortCfg(port_name=mc['port'], claim_event_name=mc['claim'],
                                  claim_granting_reply_value=NamespaceIds(list(mc['reply'])),
                                  release_event_name=mc['release'])
+    prov, req = enc['provides'], enc['requires']
+    all_m, all_s = {'sts': 'NONE', 'mts': 'ALL'}, {'sts': 'ALL', 'mts': 'NONE'}
+    pick = zlib.crc32(json.dumps([prov, req, bool(mc)], sort_keys=True).encode()) % 3
+    preset = None
+    if pick != 0:
+        if prov == all_m and req == all_m:
+            preset = ('all_mts', lambda: adv_shell.all_mts(mcc) if mcc else adv_shell.all_mts())
+        elif prov == all_s and req == all_s and not mc:
+            preset = ('all_sts', adv_shell.all_sts)
+        elif prov == all_s and req == all_m and not mc:
+            preset = ('all_sts_all_mts', adv_shell.all_sts_all_mts)
+        elif prov == all_m and req == all_s:
+            preset = ('all_mts_all_sts',
+                      lambda: adv_shell.all_mts_all_sts(mcc) if mcc else adv_shell.all_mts_all_sts())
+        elif prov == all_m:
+            preset = ('all_mts_mixed_ts', lambda: adv_shell.all_mts_mixed_ts(
+                make_select(req['sts'], order_seed, pool), make_select(req['mts'], order_seed, pool),
+                *([mcc] if mcc else [])))
+        elif prov == all_s and not mc:
+            preset = ('all_sts_mixed_ts', lambda: adv_shell.all_sts_mixed_ts(
+                make_select(req['sts'], order_seed, pool), make_select(req['mts'], order_seed, pool)))
+    if preset is not None:
+        STATS['via_preset_' + preset[0]] = STATS.get('via_preset_' + preset[0], 0) + 1
+        return preset[1]()
+    STATS['via_constructor'] = STATS.get('via_constructor', 0) + 1
     return PortsCfg(
         provides=PortsSemanticsCfg(sts=make_select(enc['provides']['sts'], order_seed, pool),
                                    mts=make_select(enc['provides']['mts'], order_seed, pool)),
@@ -86,7 +120,7 @@ def make_configuration(enc: dict, fc, order_seed: Optional[int] = None,
         else FacilitiesOrigin.IMPORT,
         copyright=enc.get('copyright', 'Copyright (c) test'),
         support_files_ns_prefix=None if prefix is None else NamespaceIds(list(prefix)),
-        creator_info=enc.get('creator'), verbose=False)
+        creator_info=enc.get('creator'), verbose=bool(enc.get('verbose', False)))
 
 
 def build_files(enc: dict, fc, order_seed: Optional[int] = None, builder=None,
